@@ -1,4 +1,5 @@
 import Pacti.Proofs.Serial
+import Pacti.Proofs.ReadNum
 /-!
 # C10 — contracts survive serialisation to dictionaries, strings and files
 
@@ -171,12 +172,21 @@ theorem round4_idem (q : ℚ) : round4 (round4 q) = round4 q := by
     front) and `round4 q` is the value of exactly these digits -/
 theorem fmt4g_round4_same_digits (q : ℚ) (hq : q ≠ 0) :
     ∃ d : Dec, 1000 ≤ d.m ∧ d.m ≤ 9999 ∧
-      fmt4g q = (if q < 0 then "-" ++ d.render else d.render) ∧
+      fmt4g q = String.ofList (if q < 0 then '-' :: d.renderL else d.renderL) ∧
       round4 q = (if q < 0 then -d.value else d.value) := by
   obtain ⟨h1, h2, _⟩ := dec4pos_spec q.num.natAbs q.den (num_natAbs_pos q hq) q.den_pos
   refine ⟨decOf q, h1, h2, ?_, ?_⟩
-  · unfold fmt4g decOf; rw [if_neg hq]
+  · unfold fmt4g fmt4gL decOf; rw [if_neg hq]
   · rw [round4_eq, if_neg hq]
+
+/-- **the printed numeral denotes the rounded value.**  Reading the string that `%.4g` prints back as a decimal numeral
+    (`readNum`: `[-]ddd[.ddd][e±dd]`, the shape `float(s)` and the grammar's number token accept) gives exactly
+    `round4 q` — for every rational `q`, fixed and scientific notation, renormalised mantissas included. -/
+theorem readNum_fmt4g (q : ℚ) : readNum (fmt4g q) = some (round4 q) := Serial.readNum_fmt4g q
+
+/-- printing, reading back and printing again changes nothing -/
+theorem fmt4g_readNum_fmt4g (q : ℚ) : (readNum (fmt4g q)).map fmt4g = some (fmt4g (round4 q)) := by
+  rw [readNum_fmt4g]; rfl
 
 example : fmt4g (12345 / 10) = "1234" := by decide +kernel
 example : fmt4g (99995 / 10) = "1e+04" := by decide +kernel
